@@ -8,11 +8,23 @@ HO = "hostile: 2-16 client threads on few keys, mixed operations, tiny to defaul
      "distinct by (seed, threads, keys, config); non-trivial = history with evictions/expiries or replaced values"
 
 
-def ls(prop, q=300, t=4000, shards_q=4, shards_t=16, flavors=None):
+def ls(prop, q=300, t=4000, shards_q=4, shards_t=16, flavors=None, profile=None):
     args = ["--quick-n", str(q), "--thorough-n", str(t)]
     if flavors:
         args += ["--flavors", flavors]
+    if profile:
+        args += ["--profile", profile]
     return dict(engine="lockstep", shards=dict(quick=shards_q, thorough=shards_t), args=args)
+
+
+def ls_async_quick(prop):
+    """a slice of the lockstep histories on two async executors already in the quick tier"""
+    return ls(prop, q=60, t=1500, shards_q=2, shards_t=8, flavors="tokio-mt,thread-per-task")
+
+
+def pairs(q=20, t=300):
+    """hostile 'pairs' mode: fresh keys, each taken by two consecutive callers (one inserts, one removes)"""
+    return dict(engine="hostile", shards=dict(quick=4, thorough=16), args=["--quick-n", str(q), "--thorough-n", str(t), "--mode", "pairs"])
 
 
 def ga(q=1, t=6, shards_q=4, shards_t=16):
@@ -71,7 +83,7 @@ PLAN = {
         assumptions=["equalities are decided on histories whose true sum of charges fits in i64 (beyond that an i64 total has no defined answer); costs near i64::MAX are used for survival and oversize clauses"],
     ),
     "C02": dict(
-        stages=[ho("C02", q=60), ls("C02"), ga(), tsan("hostile"), asan("hostile", n=30), miri("store")],
+        stages=[ho("C02", q=60), ls("C02"), ls("C02", q=100, t=1500, shards_q=2, shards_t=8, profile="C18"), ga(), tsan("hostile"), asan("hostile", n=30), miri("store")],
         rule=HO + " || " + LS + " || " + GA + SAN,
         clauses=["R1 returned value carries the looked-up key", "R2 written by an insert that returned true or an in-place write, not from the future",
                  "R3a no value written before a remove that was applied (later wait() Ok, no clear overlapping)", "R3a' removal of an observably resident value is immediate",
@@ -81,7 +93,7 @@ PLAN = {
         assumptions=["registers are not linearizable by design (a new key becomes visible asynchronously): the clauses above are what the statement promises"],
     ),
     "C03": dict(
-        stages=[ls("C03", q=400)],
+        stages=[ls("C03", q=400), ls_async_quick("C03")],
         rule=LS,
         clauses=["visible iff now - t_insert < d", "get_ttl == ValueRef::ttl == d - (now - t_insert) exactly; Duration::MAX without TTL", "re-insert replaces the deadline (stored ttl/created compared)",
                  "TTL grid: 1 ms .. 100 h, insert offsets 0/1ns/.499/.5/.999999999 s, clock aimed at d-1ns/d/d+1ns and second boundaries"],
@@ -89,21 +101,21 @@ PLAN = {
         assumptions=["time is the hook's virtual clock (type substituted for SystemTime in src/ttl.rs; every line of Time stays live)"],
     ),
     "C04": dict(
-        stages=[ls("C04", q=400)],
+        stages=[ls("C04", q=400), ls_async_quick("C04")],
         rule=LS + "; max_cost == sum of the per-key charges exactly (tight) so nothing may ever be refused or evicted",
         clauses=["every key: presence and value id equal the model after every step", "no on_reject, on_evict only for elapsed TTLs", "insert returns true", "nothing swept before its deadline"],
         minimum=dict(quick=dict(ls_histories=300, ls_updates=3000, ls_ticks=10000)),
         assumptions=[],
     ),
     "C05": dict(
-        stages=[ls("C05", q=400)],
+        stages=[ls("C05", q=400), ls_async_quick("C05")],
         rule=LS + "; cleanup intervals 0.1/0.25/0.5/1/2(default, read back from the hook)/3/5 s, every tick phase",
         clauses=["never early: reclaimed only with deadline <= tick time", "bounded delay: deadline + 1 s + interval <= tick time => gone from store, policy, len()", "on_evict exactly once with id and charged cost", "charge released"],
         minimum=dict(quick=dict(ls_reclaimed_by_ttl=1000, ls_ticks=10000, ls_interval_ms_2000=50)),
         assumptions=["ticks are delivered (never skipped) at phase + n*interval of the virtual clock"],
     ),
     "C06": dict(
-        stages=[ho("C06", q=60), ls("C06"), ga(), tsan("hostile")],
+        stages=[ho("C06", q=60), pairs(), ls("C06"), ga(), tsan("hostile")],
         rule=GA + " || " + HO + SAN + "; histories in which a call returned Err are excluded (the statement's exemption) and counted",
         clauses=["keys(store) == keys(policy) at the quiescent end", "len() == number of resident entries", "same invariant after every lockstep step"],
         minimum=dict(quick=dict(ho_c06_evaluations=60, ho_evictions_and_expiries=2000, ls_histories=200)),
@@ -124,7 +136,7 @@ PLAN = {
         assumptions=["policy worker drained (kept == applied) before each add, so estimates are stable while the oracle reads them"],
     ),
     "C08": dict(
-        stages=[ho("C08", q=60), ls("C08"), ga(), tsan("hostile")],
+        stages=[ho("C08", q=60), pairs(), ls("C08"), ga(), tsan("hostile")],
         rule=HO + " || " + LS + " || " + GA + SAN,
         clauses=["every accepted value: exactly one of {resident, on_exit, on_evict, on_reject, overwritten in place}", "none of them only if dropped inside a clear()/close() call",
                  "never two", "no look-up returns a value after its callback", "no value leaked after the cache and its workers are gone", "lockstep: callback kind matches the cause"],
